@@ -399,7 +399,7 @@ def many_children(rng, th=False):
     nested 8..40 deep (depth and breadth themselves as the variable)"""
     out = []
     small = [{"t": "Zero"}, {"t": "One"}, {"t": "Int", "ty": "u8", "v": [66]}, {"t": "Local", "n": 3}, {"t": "Ones"}]
-    for n in ([255, 256, 257, 1000, 5000] if th else [256, 257, 1200]):
+    for n in ([255, 256, 257, 1000, 2900] if th else [256, 257, 1200]):      # (the specification's parser accepts lists of up to 3000 terms)
         for kind in ("Scope", "Device", "Method", "PowerResource", "If", "Else", "While"):
             g = G(rng)
             ch = [small[(i * 7 + n) % len(small)] for i in range(n)]
